@@ -59,12 +59,24 @@ META = {
                   '(features and interface_classes depend on the MRO and the direct bases along it only, whatever was created '
                   'before), control_isolated / inputs_only_by_own_registration / control_calls_isolated (the table of input callbacks '
                   'of a module, and what self_controlled() calls, change by registrations with that module only).  '
+                  'Status codes (FrappyModel/Klass/Status.lean: StatusType(<class>, *standard, **custom) worked out by the model from '
+                  'the class it extends): status_codes_own_chain (the enum has exactly the codes of that class and the codes given), '
+                  'status_of_class_stable / status_elab_stable (the status of a class, and what a status declaration means, is the '
+                  'same after any admissible run - other families using the same numbers under other names included).  Struct '
+                  'parameters (StructParam expanded by the model: expandStructs_names; FrappyModel/Klass/StructRW.lean: the per-object '
+                  'nesting counter of the member/struct callbacks): member_update_context_free (what a module shows after a member '
+                  'update is the same inside a struct access of any OTHER module as on its own), member_update_reaches_struct; '
+                  'contextOffenders_sound (monitor).  '
                   'Tied to the code by a correspondence run (every dump, '
                   'propertyDict, property values, exportProperties and the id()-sharing partition incl. Property objects and member '
                   'datatypes after every operation of generated programs) and by Lean monitors judging every implementation trace '
                   '(isolation incl. write_<p>/command-call behaviour, module properties, loaded configuration sections, class and '
                   'instance namespaces and input-callback behaviour; order independence of classes AND of module creation; later '
-                  'instances incl. a second creation from the same loaded section; writes follow the own datatype).',
+                  'instances incl. a second creation from the same loaded section; writes follow the own datatype; what a module shows '
+                  'after a member update does not depend on which other module is being accessed meanwhile).  Every run of a program '
+                  '(first order, other order, every shrinking step, every replay) happens in a process of its own, forked from a parent '
+                  'that has imported frappy and nothing else: no class-level table, memo or registry survives from one run to another; '
+                  'the class-level state of frappy\'s own datatype / Parameter / Command / Property classes is an owner (lib:*) of every dump.',
     'level_note': 'Trusted: Lean kernel + axioms propext/Classical.choice/Quot.sound; Python C3 linearisation is an input (the real '
                   '__mro__ is passed to the model); validation behaviour is taken to be a function of the exported datainfo '
                   '(monitored on every run); whether an operation fails is taken from the implementation (the model skips failed '
@@ -75,7 +87,8 @@ META = {
     'trusted': [
         "Python's C3 linearisation (the real __mro__ of every generated class is passed to the model as data)",
         'validation behaviour of a datatype object is a function of its exported datainfo (checked by the monitor valFunctionalB on every run)',
-        'class bodies are drawn from a template family (type() with Parameter/Command/Property/bare value/None/method declarations), not arbitrary Python',
+        'class bodies are drawn from a template family (type() with Parameter/Command/Property/StructParam/StatusType/bare value/None/method declarations), not arbitrary Python; member access methods of struct parameters are the harness\'s (value from/to a table, hooks calling into other modules)',
+        'os.fork() gives a run the interpreter state of the parent (frappy imported, no generated class): state the parent itself acquires while building wire formats (it builds datatype objects and Command objects, never a class or a module) would be inherited by all runs alike',
         'a LimitsType is told to the model as such (kind "limits", one member); every other datatype object by its exported datainfo',
         'the items of a Param object and the entries of a Mod are told to the model in the order frappy.config builds them (value last); SECoP_BASE_CLASSES is passed to the driver with every request',
     ],
@@ -85,7 +98,9 @@ META = {
         'HasOutputModule.initModule/activate_control (the controller side) is not run: register_input is called on the output module with a recording callback',
         'the class/instance namespace digest (names and plain-data values, other objects by type name) is judged, not predicted',
         'read_/write_/check_ wrapper generation in __init_subclass__',
-        'Limit parameters (<p>_min/_max/_limits); ScaledInteger, BLOBType, StatusType/OrType/NoneOr as parameter datatypes (StatusType appears through frappy.modules only)',
+        'Limit parameters (<p>_min/_max/_limits); ScaledInteger, BLOBType, OrType/NoneOr as parameter datatypes; FloatEnumParam',
+        'the elaboration of status declarations and StructParam declarations (Klass/Status.lean) happens in front of pureDefine (driver: elabOp, expandStructs): the theorems about order independence see the elaborated class bodies; that elaboration itself is order independent is status_elab_stable',
+        'Klass/StructRW.lean is a model of the callbacks of ONE thread (insideRW is thread local); hasStructRW layouts (own read_/write_<struct>) and the partial-failure path of the generated struct read/write are not modelled; lib:* owners and the outcome of the context probe are judged (and, for accepted member updates, predicted), the namespace digests are not predicted',
         'outcomes of write_<p>(v) through the generated wrapper and of Command.do(): dumped, judged (isolation, order, writesOwn), not predicted',
         'the module property `export = False` (switches the export of all accessibles off) is never generated',
     ],
@@ -104,10 +119,15 @@ ROOTS = ['Module', 'Readable', 'Writable', 'Drivable']
 # ----------------------------------------------------------------------------------------
 # building datatypes / declarations from the JSON program
 # ----------------------------------------------------------------------------------------
-def mk_dt(spec):
+def mk_dt(spec, resolve=None):
     from frappy import datatypes as D
     t = spec['t']
     props = dict(spec.get('props') or {})
+    if t == 'status':
+        # `StatusType(<class with a status parameter> | None, *<standard code names>, **<custom codes>)`: the codes of the
+        # parent are taken from the class as it is now (datatypes.py: StatusType.__init__)
+        parent = resolve(spec['parent']) if spec.get('parent') else None
+        return D.StatusType(parent, *spec['std'], **spec['custom'])
     if t == 'float':
         return D.FloatRange(**props)
     if t == 'int':
@@ -179,13 +199,19 @@ def mk_func(sig):
     return ns['func']
 
 
-def mk_decl(decl):
+def mk_decl(decl, resolve=None):
     from frappy.params import Parameter, Command
     k = decl['k']
+    if k == 'struct':
+        # a StructParam: a struct parameter together with one parameter per member (frappy/extparams.py)
+        from frappy.extparams import StructParam
+        pd = {m: Parameter('member ' + m, mk_dt(dt)) for m, dt in decl['members']}
+        return StructParam(decl.get('desc'), pd, decl.get('prefix', ''), readonly=bool(decl.get('readonly')))
     if k == 'param':
         kw = dict(decl.get('props') or {})
         if decl.get('dt') is not None:
-            kw['datatype'] = mk_dt(decl['dt'])
+            kw['datatype'] = mk_dt(decl['dt'], resolve)
+            kw.update(decl.get('dtkw') or {})     # datatype properties given as keywords next to the datatype
         if not decl.get('inherit', True):
             kw['inherit'] = False
         return Parameter(decl.get('desc'), **kw)
@@ -334,15 +360,28 @@ def outcome(f, *args):
         return [type(e).__name__]
 
 
-def dump_accessible(aobj, objs, aname, modobj=None):
+def write_probe(aobj, aname, modobj):
+    """behaviour of the instance: what write_<p>(v) does, through the generated wrapper"""
+    from frappy.params import Parameter
+    if not isinstance(aobj, Parameter):
+        return None
+    wfunc = getattr(modobj, 'write_' + aname, None)
+    return [outcome(lambda v: aobj.datatype.export_value(wfunc(v)), v) for v in WRITE_CATALOGUE] if wfunc else None
+
+
+def dump_accessible(aobj, objs, aname, modobj=None, writes=None):
     from frappy.params import Parameter
     isparam = isinstance(aobj, Parameter)
     d = {'cmd': not isparam}
     if modobj is not None and isparam:
-        # behaviour of the instance: what write_<p>(v) does, through the generated wrapper (before anything else is looked
-        # at: the probe leaves the last accepted value in the parameter, in every dump alike)
-        wfunc = getattr(modobj, 'write_' + aname, None)
-        d['writes'] = [outcome(lambda v: aobj.datatype.export_value(wfunc(v)), v) for v in WRITE_CATALOGUE] if wfunc else None
+        # the write probes of ALL parameters of the module are done before anything else is looked at: they leave the last
+        # accepted value in the parameter (and, through callbacks, in parameters following it), in every dump alike
+        d['writes'] = writes
+        # a name declared as StructParam somewhere in the chain: its write_<p> is the generated struct write function (it passes
+        # the members on to THEIR write functions), not the plain "validate and store" the monitor writesOwnB is about
+        from frappy.extparams import StructParam
+        if any(isinstance(vars(c).get(aname), StructParam) for c in type(modobj).__mro__):
+            d['struct_write'] = True
         d['validates'] = [outcome(lambda v: aobj.datatype.export_value(aobj.datatype.validate(v)), v) for v in WRITE_CATALOGUE]
     props = {}
     for pn, po in aobj.propertyDict.items():       # what exportProperties() does, the datatype apart
@@ -398,6 +437,8 @@ def ns_value(v, depth=0):
         return canon(v)
     if isinstance(v, type):
         return 'class ' + v.__name__
+    if type(v).__name__ == 'Enum' and hasattr(v, 'members'):       # frappy.lib.enum.Enum (e.g. `cls.Status`): names and codes
+        return {'enum': sorted([m.name, int(m.value)] for m in v.members)}
     if depth > 4:
         return '...'
     if isinstance(v, dict):
@@ -410,11 +451,18 @@ def ns_value(v, depth=0):
     return _TYPE_TAG.get(type(v)) or _TYPE_TAG.setdefault(type(v), '<' + type(v).__name__ + '>')
 
 
-def ns_digest(namespace):
+def is_code(v):
+    import types
+    return isinstance(v, (types.FunctionType, types.BuiltinFunctionType, types.MethodDescriptorType, types.WrapperDescriptorType,
+                          types.GetSetDescriptorType, types.MemberDescriptorType, property, classmethod, staticmethod))
+
+
+def ns_digest(namespace, data_only=False):
     """what a class (its `__dict__`) or an instance (`vars()`) holds besides what is dumped in detail: every name with the
     canonical form of its value.  State cached on a class by somebody else (an attribute that appears, a class-level
     container that grows) is state shared by all its instances and inherited by its subclasses."""
-    return sorted([k, ns_value(v)] for k, v in namespace.items() if k not in ('__doc__', '__module__', '__qualname__', 'name'))
+    return sorted([k, ns_value(v)] for k, v in namespace.items() if k not in ('__doc__', '__module__', '__qualname__', 'name')
+                  and not (data_only and is_code(v)))
 
 
 def control_probe(modobj, calls):
@@ -473,8 +521,9 @@ def dump_owner(owner, is_class, calls=None):
     if accessibles is None:       # a mixin not derived from HasAccessibles: its Parameter objects are its state
         from frappy.params import Accessible
         accessibles = {k: v for k, v in owner.__dict__.items() if isinstance(v, Accessible)}
+    writes = {} if is_class else {aname: write_probe(aobj, aname, owner) for aname, aobj in accessibles.items()}
     for aname, aobj in accessibles.items():
-        accs.append([aname, dump_accessible(aobj, objs, aname, None if is_class else owner)])
+        accs.append([aname, dump_accessible(aobj, objs, aname, None if is_class else owner, writes.get(aname))])
     if is_class:
         pd = property_objects(owner)
         mprops = [[pn] + dump_property(po) for pn, po in pd.items()]
@@ -536,6 +585,36 @@ def builtin_owners():
             'Feature': Feature, 'HasControlledBy': X.HasControlledBy, 'HasOutputModule': X.HasOutputModule}
 
 
+_lib = {}
+
+
+def lib_owners():
+    """the classes of frappy every module class is built FROM - datatype classes, Parameter/Command and their special
+    subclasses, Property: their class-level state (the property tables `propertyDict`, anything kept on the class) is shared
+    by all parameters of all modules of the process.  Owners `lib:<name>`: judged (nothing a program does may change them),
+    not predicted by the model."""
+    if not _lib:
+        import frappy.datatypes as D
+        import frappy.params as P
+        import frappy.properties as R
+        import frappy.extparams as X
+        for mod in (R, D, P, X):
+            for n, c in vars(mod).items():
+                if isinstance(c, type) and c.__module__ == mod.__name__ and (issubclass(c, R.HasProperties) or c is R.Property):
+                    _lib.setdefault(n, c)
+    return _lib
+
+
+def dump_lib(cls):
+    pd = cls.__dict__.get('propertyDict') or {}
+    out = {'ns': ns_digest(cls.__dict__, data_only=True)}     # methods of frappy's own classes are not data
+    try:
+        out['pd'] = [[pn] + dump_property(po) for pn, po in pd.items()]
+    except Exception as e:
+        out['pd'] = type(e).__name__
+    return out
+
+
 def snapshot(ex):
     """dumps of every live owner: frappy's own classes, every generated class, every instance, every loaded module
     section of the configuration; and the id()-partition of their objects"""
@@ -556,6 +635,11 @@ def snapshot(ex):
         objs += [('inst:' + name, p, x) for p, x in o]
     for name, sec in ex.cfgs.items():
         dumps['cfg:' + name] = {'cfg': dump_section(sec)}
+    for name, c in lib_owners().items():
+        try:
+            dumps['lib:' + name] = dump_lib(c)
+        except Exception as e:
+            dumps['lib:' + name] = {'dump_error': type(e).__name__}
     return dumps, partition(objs)
 
 
@@ -594,6 +678,114 @@ def create_module(ex, section):
     return None, 'error:ConfigError' if any(e.startswith('error creating module') for e in node.errors) else 'error:Exception'
 
 
+_HOOKS = []          # what the member access methods of generated classes do besides their job (set by the context probe)
+_HW = {}             # (id(module), parameter) -> the value the hardware of this module shows for this parameter
+
+
+def member_access(pname):
+    """read_<p> / write_<p> of a member of a struct parameter as a driver writes them: the value comes from / goes to the
+    hardware of this module.  A driver may talk to other modules from there (cascaded loops, a module watching another one):
+    that is what the hooks are for."""
+    def read(self):
+        for hook in list(_HOOKS):
+            hook(self, 'read', pname)
+        return _HW.get((id(self), pname), self.parameters[pname].value)
+
+    def write(self, value):
+        for hook in list(_HOOKS):
+            hook(self, 'write', pname)
+        return value
+    return read, write
+
+
+def struct_params(modobj):
+    """[(struct parameter name, [(member, parameter name)])] of a module"""
+    from frappy.extparams import StructParam
+    return [(n, [(m, p.name) for m, p in po.paramdict.items()]) for n, po in modobj.parameters.items()
+            if isinstance(po, StructParam) and po.paramdict]
+
+
+def context_probe(ex):
+    """behaviour of one module while ANOTHER module is being accessed.  For every module Y with a struct parameter S: a member
+    of S is updated (`Y.<member> = v`: what a driver does when it learns a new value; or Y.read_<member>() with a new value on
+    the hardware) and what Y shows afterwards (member, struct) is recorded - on its own ('alone') and from inside a member access
+    method of another module X while the struct of X is read / written (`X.read_<T>()`, `X.write_<T>(...)`).
+    -> [[key, context, outcome]]; the monitor (Spec/C09.lean: contextFreeB) demands one outcome per key."""
+    mods = [(n, o, struct_params(o)) for n, o in ex.insts.items()]
+    mods = [(n, o, sp) for n, o, sp in mods if sp]
+    out = []
+    if len(mods) < 2:
+        return out
+
+    def show(y, s, members):
+        return outcome(lambda _: [canon(y.parameters[pn].value) for _, pn in members] + [canon(dict(y.parameters[s].value))], None)
+
+    def act(y, how, pn, v):
+        if how == 'assign':
+            setattr(y, pn, v)
+        else:
+            _HW[(id(y), pn)] = v
+            try:
+                getattr(y, 'read_' + pn)()
+            finally:
+                _HW.pop((id(y), pn), None)
+
+    saved = [(o.parameters[pn], o.parameters[pn].value, o.parameters[pn].readerror)
+             for _, o, sp in mods for s_, members in sp for pn in [s_] + [q for _, q in members]]
+    try:
+        _context_probe(mods, out, show, act)
+    finally:
+        for pobj, value, err in saved:       # the probe leaves no trace in what the next dumps show
+            pobj.value, pobj.readerror = value, err
+    return out
+
+
+def _context_probe(mods, out, show, act):
+    for yn, y, ysp in mods[:3]:
+        for s, members in ysp[:1]:
+            m, pn = members[0]
+            for how in ('assign', 'read'):
+                key = f'inst:{yn}:{s}.{m}:{how}'
+                contexts = [('alone', None, None)]
+                for xn, x, xsp in mods[:4]:
+                    if x is not y:
+                        t = xsp[0][0]
+                        contexts.append((f'in inst:{xn}.read_{t}', x, lambda x=x, t=t: getattr(x, 'read_' + t)()))
+                        if not x.parameters[t].readonly:
+                            contexts.append((f'in inst:{xn}.write_{t}', x,
+                                             lambda x=x, t=t: getattr(x, 'write_' + t)(dict(x.parameters[t].value))))
+                for cname, x, access in contexts:
+                    fired = []
+
+                    def hook(mod, _how, _pn, x=x, fired=fired):
+                        if mod is x and not fired:
+                            fired.append('ok')
+                            try:
+                                act(y, how, pn, 2)
+                            except Exception as e:       # the class of the error is the observation
+                                fired[0] = type(e).__name__
+                    try:
+                        setattr(y, pn, 1)            # the same start in every context, set outside of any access
+                    except Exception:
+                        continue
+                    start = {'y': yn, 'x': cname.split(':', 1)[1].split('.')[0] if x is not None else None, 'm': m, 'v': jtext(2),
+                             'members': [[mm, jtext(canon(y.parameters[q].value))] for mm, q in members],
+                             'struct': [[mm, jtext(canon(sv))] for mm, sv in dict(y.parameters[s].value).items()]}
+                    if x is None:
+                        hook(None, None, None, x=None)
+                    else:
+                        _HOOKS.append(hook)
+                        try:
+                            access()
+                        except Exception:       # what becomes of the access to X is X's business
+                            pass
+                        finally:
+                            _HOOKS.remove(hook)
+                        if not fired:
+                            continue
+                    out.append([key, cname, show(y, s, members) if fired == ['ok'] else fired, start])
+
+
 def run_op(op, ex):
     """-> (outcome, target owner key or None, extra)"""
     import frappy.modules as M
@@ -605,8 +797,15 @@ def run_op(op, ex):
         if kind == 'class':
             bases = tuple(classes[b] if b in classes else builtins[b] for b in op['bases'])
             ns = {}
+            resolve = lambda n: classes[n] if n in classes else builtins[n]       # noqa: E731
             for aname, decl in op['decls']:
-                ns[aname] = mk_decl(decl)
+                ns[aname] = mk_decl(decl, resolve)
+                if decl['k'] == 'struct':
+                    for m, _ in decl['members']:
+                        pname = decl.get('prefix', '') + m
+                        ns['read_' + pname], wfunc = member_access(pname)
+                        if not decl.get('readonly'):
+                            ns['write_' + pname] = wfunc
             ns['__module__'] = 'verif_c09'
             if op.get('mixin'):
                 cls = type(op['name'], bases or (object,), ns)
@@ -705,6 +904,158 @@ class time_limit:
 
 
 CASE_LIMIT = int(os.environ.get('VERIF_CASE_TIMEOUT') or 60)
+JOBS = int(os.environ.get('VERIF_JOBS') or min(16, os.cpu_count() or 4))
+
+
+# ----------------------------------------------------------------------------------------
+# every run of a program happens in a process of its own
+# ----------------------------------------------------------------------------------------
+def preload():
+    """everything of frappy a program uses is imported before the first case: the process of a case is a fork of this one"""
+    import frappy.modules, frappy.mixins, frappy.secnode, frappy.config, frappy.extparams     # noqa  pylint: disable=all
+    import frappy.datatypes, frappy.params, frappy.properties, frappy.modulebase            # noqa  pylint: disable=all
+    from frappy.lib import generalConfig
+    generalConfig.testinit()
+    builtin_owners()
+    lib_owners()
+
+
+def _child(func, args, wfd):
+    import gc
+    import pickle
+    import traceback
+    try:
+        gc.freeze()       # what the parent holds is never collected here: the collector does not touch (and copy) its pages
+        try:
+            with time_limit(CASE_LIMIT):
+                out = ('ok', func(*args))
+        except CaseTimeout as e:
+            out = ('timeout', str(e))
+        except BaseException:       # pylint: disable=broad-except
+            out = ('crash', traceback.format_exc())
+        with os.fdopen(wfd, 'wb') as f:
+            f.write(pickle.dumps(out, 4))
+    finally:
+        os._exit(0)
+
+
+def fresh_many(jobs):
+    """[(func, args)] -> [func(*args)], each evaluated in a process of its own, forked from THIS process - which has imported
+    frappy and never defines a class, creates a module or builds a Parameter for a class itself.  'No other class was defined,
+    no other module created before' is meant literally: whatever a program leaves behind anywhere in the interpreter (class-level
+    tables of frappy's own classes, memos, module-level registries) dies with its process and is never seen by another
+    program, by the same program run in another order, or by the harness when it builds the wire format.  The jobs of one
+    call run concurrently."""
+    return fresh_collect(fresh_start(jobs))
+
+
+def fresh_start(jobs):
+    """starts the processes of the jobs; they run while the caller does something else (waits for the Lean driver)"""
+    preload()
+    running = []
+    for func, args in jobs:
+        rfd, wfd = os.pipe()
+        pid = os.fork()
+        if pid == 0:
+            os.close(rfd)
+            for r, _ in running:
+                os.close(r)
+            _child(func, args, wfd)
+        os.close(wfd)
+        running.append((rfd, pid))
+    return running
+
+
+def fresh_collect(running):
+    import pickle
+    import select
+    import signal
+    import time
+    results = []
+    deadline = time.time() + CASE_LIMIT + 30
+    for rfd, pid in running:
+        chunks = []
+        while True:
+            ready, _, _ = select.select([rfd], [], [], max(0.0, deadline - time.time()))
+            if not ready:       # the child hangs where SIGALRM does not reach it
+                os.kill(pid, signal.SIGKILL)
+                chunks = None
+                break
+            data = os.read(rfd, 1 << 20)
+            if not data:
+                break
+            chunks.append(data)
+        os.close(rfd)
+        os.waitpid(pid, 0)
+        if chunks is None:
+            results.append(('timeout', f'case process killed after {CASE_LIMIT + 30} s'))
+            continue
+        try:
+            results.append(pickle.loads(b''.join(chunks)))
+        except Exception as e:
+            results.append(('crash', f'no result from the case process ({type(e).__name__})'))
+    out = []
+    for status, val in results:
+        if status != 'ok':
+            raise RuntimeError(f'{status}: {val}; harness problem, not a verdict')
+        out.append(val)
+    return out
+
+
+def pbatch(ctx, groups):
+    """[[request]] -> [[answer]]: one driver process per group, all at once (a request line is a complete case, the driver
+    keeps no state between lines: vlib.lean.Driver.batch does the same with one process)"""
+    import shutil
+    import subprocess
+    import tempfile
+    path = getattr(ctx.driver, 'path', None)
+    if path is None or len(groups) < 2:
+        return [ctx.driver.batch(g) for g in groups]
+    tmp = tempfile.mkdtemp(prefix='c09-drv-')
+    try:
+        procs = []
+        for i, g in enumerate(groups):
+            with open(os.path.join(tmp, f'in{i}'), 'w', encoding='utf-8', errors='surrogatepass') as f:
+                for r in g:
+                    f.write(json.dumps(r, ensure_ascii=False, separators=(',', ':')) + '\n')
+            fin, fout = open(os.path.join(tmp, f'in{i}'), 'rb'), open(os.path.join(tmp, f'out{i}'), 'wb')
+            procs.append((subprocess.Popen([path], stdin=fin, stdout=fout, stderr=subprocess.DEVNULL), fin, fout))
+        out = []
+        for i, (pr, fin, fout) in enumerate(procs):
+            rc = pr.wait(timeout=3000)
+            fin.close()
+            fout.close()
+            with open(os.path.join(tmp, f'out{i}'), 'rb') as f:
+                lines = f.read().split(b'\n')
+            if lines and lines[-1] == b'':
+                lines.pop()
+            if len(lines) != len(groups[i]):
+                raise RuntimeError(f'driver answered {len(lines)} lines for {len(groups[i])} requests; rc={rc}')
+            out.append([json.loads(x.decode('utf-8', 'replace')) for x in lines])
+        return out
+    finally:
+        shutil.rmtree(tmp, ignore_errors=True)
+
+
+def fresh(func, *args):
+    return fresh_many([(func, args)])[0]
+
+
+def with_texts(program, init, steps):
+    """the canonical text of every dump (what the monitors compare) is made where the dump is made"""
+    init['text'] = text_dumps(init['dumps'])
+    for st in steps:
+        st['text'] = text_dumps(st['after'])
+    return program, init, steps
+
+
+def job_generate(seed, big):
+    import random
+    return with_texts(*gen_program(random.Random(seed), big))
+
+
+def job_run(program):
+    return with_texts(program, *impl_run(program))[1:]
 
 
 class Exec:
@@ -722,7 +1073,7 @@ class Exec:
     def apply(self, op):
         outcome, target, extra = run_op(op, self)
         after, part = snapshot(self)
-        st = {'op': op, 'outcome': outcome, 'target': target, 'after': after, 'part': part}
+        st = {'op': op, 'outcome': outcome, 'target': target, 'after': after, 'part': part, 'ctx': context_probe(self)}
         st.update(extra)
         if op['op'] == 'class' and outcome == 'ok':
             cls = self.classes[op['name']]
@@ -850,6 +1201,37 @@ def gen_dt(rng, kind=None, depth=0):
     return {'t': 'array', 'props': props, 'child': child}
 
 
+STATUS_STD = ['BUSY', 'RAMPING', 'DISABLED', 'STANDBY', 'UNKNOWN', 'FINALIZING']
+STATUS_NAMES = ['TRIPPED', 'INTERLOCK', 'QUENCH']
+STATUS_CODES = [410, 410, 420]
+SNAMES = ['ctrl', 'pars']
+SMEMBERS = [['kp', 'ki'], ['kp', 'ki', 'kd'], ['speed', 'backlash']]
+
+
+def gen_status(rng, parents, used):
+    """a status datatype extending the status of a class (mostly a base of the class being defined) by standard codes and
+    by custom codes.  Constants used before in this program (lists of standard codes, custom code numbers) are used again
+    with preference: independent class families tend to extend their status in parallel ways."""
+    parent = rng.choice(parents) if parents and rng.random() < 0.93 else None
+    if used['std'] and rng.random() < 0.6:
+        std = list(rng.choice(used['std']))
+    else:
+        std = rng.sample(STATUS_STD, rng.choice([0, 1, 1, 2]))
+    custom = {}
+    if rng.random() < (0.55 if used['codes'] else 0.9):
+        code = rng.choice(used['codes']) if used['codes'] and rng.random() < 0.7 else rng.choice(STATUS_CODES)
+        custom[rng.choice(STATUS_NAMES)] = code
+        used['codes'].append(code)
+    used['std'].append(std)
+    return {'t': 'status', 'parent': parent, 'std': std, 'custom': custom}
+
+
+def gen_struct(rng):
+    members = rng.choice(SMEMBERS)
+    return {'k': 'struct', 'desc': rng.choice(DESCS), 'prefix': rng.choice(['', '', 'c_']), 'readonly': rng.random() < 0.2,
+            'members': [[m, gen_dt(rng, rng.choice(['float', 'float', 'int']))] for m in members]}       # in this order
+
+
 def gen_dtprops(rng, kind):
     """datatype properties given without a datatype (applied to the inherited one)"""
     r = rng.random()
@@ -866,8 +1248,9 @@ def gen_dtprops(rng, kind):
         return out
     if kind in ('string', 'text'):
         return {'maxchars': rng.choice([2, 4, 12])} if rng.random() < 0.7 else {}
-    if kind == 'array':
-        return rng.choice([{'maxlen': rng.choice([4, 6])}, {'max': rng.choice([4, 6])}, {}])
+    if kind == 'array':       # of the array itself, or of its elements (ArrayOf.setProperty passes them on)
+        return rng.choice([{'maxlen': rng.choice([4, 6])}, {'max': rng.choice([4, 6])}, {}, {'min': rng.choice([0, 1])},
+                           {'max': rng.choice([4, 6, 50]), 'min': 0}, {'unit': rng.choice(UNITS)}])
     return {}
 
 
@@ -985,9 +1368,22 @@ def gen_decl(rng, known_kind, is_mixin):
     return {'k': 'method'}
 
 
+def with_dtkw(rng, d):
+    """datatype properties as keywords of a Parameter that is given a datatype: `Parameter('..', ArrayOf(FloatRange()), max=5)`"""
+    if d.get('k') == 'param' and d.get('dt') and d['dt']['t'] in ('float', 'int', 'string', 'text', 'array') and rng.random() < 0.3:
+        kw = gen_dtprops(rng, d['dt']['t'])
+        if kw:
+            d['dtkw'] = kw
+    return d
+
+
 def decl_kind(decl, prev):
     if decl['k'] == 'param':
+        if decl.get('dt') and decl['dt']['t'] == 'status':
+            return 'tuple'
         return decl['dt']['t'] if decl.get('dt') else prev
+    if decl['k'] == 'struct':
+        return 'struct'
     if decl['k'] == 'cmd':
         arg = decl.get('arg')
         return 'cmd:' + ','.join(arg['members']) if arg and arg['t'] == 'struct' else 'cmd'
@@ -1018,9 +1414,39 @@ def gen_program(rng, big):
     ops = []
     nops = rng.randint(3, 14 if big else 8)
     ncls = 0
+    # scenario: most programs mix everything; some concentrate on class families extending the status codes, some on
+    # modules with struct parameters (several of them, to be accessed while another one is)
+    theme = rng.choice([None] * 7 + ['status', 'status', 'struct'])
+    if theme:
+        nops = max(nops, 9 if theme == 'status' else 7)
+    p_class, p_inst = {None: (0.45, 0.72), 'status': (0.75, 0.9), 'struct': (0.3, 0.85)}[theme]
+    used = {'std': [], 'codes': []}
+    status_classes = {}      # classes declaring a status: name -> (bases, status datatype)
+    mirror = {}              # class -> the class declared in parallel to it (an independent family built the same way)
     for _ in range(nops):
         r = rng.random()
-        if r < 0.45 or not modules:
+        todo = [c for c in status_classes if c not in mirror and c not in mirror.values()]
+        if theme == 'status' and todo and r < p_class and rng.random() < 0.6:
+            # a class family of its own built like an existing one: same bases (or their counterparts), the status extended
+            # by the same standard codes and the same custom code numbers - under the same or under other names
+            a = rng.choice(todo)
+            abases, adt = status_classes[a]
+            ncls += 1
+            name = 'K%d' % ncls
+            dt = {'t': 'status', 'parent': mirror.get(adt['parent'], adt['parent']), 'std': list(adt['std']),
+                  'custom': {(rng.choice(STATUS_NAMES) if rng.random() < 0.6 else n): c for n, c in adt['custom'].items()}}
+            op = {'op': 'class', 'name': name, 'bases': [mirror.get(b, b) for b in abases], 'mixin': False,
+                  'decls': [['status', {'k': 'param', 'dt': dt, 'props': {}, 'inherit': True}]]}
+            ops.append(op)
+            if ex.apply(op)['outcome'] == 'ok':
+                kinds[name] = dict(kinds[a])
+                mkinds[name] = dict(mkinds.get(a, {}))
+                mvalued[name] = set(mvalued.get(a, ()))
+                modules.append(name)
+                mirror[a] = name
+                status_classes[name] = (op['bases'], dt)
+            continue
+        if r < p_class or not modules:
             ncls += 1
             name = 'K%d' % ncls
             is_mixin = rng.random() < 0.2
@@ -1032,6 +1458,8 @@ def gen_program(rng, big):
             else:
                 nb = rng.choice([1, 1, 1, 2, 2, 3])
                 first = rng.choice(modules) if modules and rng.random() < 0.75 else rng.choice(ROOTS)
+                if theme == 'status' and status_classes and rng.random() < 0.6:
+                    first = rng.choice(sorted(status_classes))
                 bases = [first]
                 for _ in range(nb - 1):
                     wild = rng.random() < 0.05
@@ -1058,6 +1486,19 @@ def gen_program(rng, big):
                 est.update(kinds.get(b, {}))
             decls = []
             names_known = [n for n in est if est[n] is not None]
+            if not is_mixin and not is_feature and est.get('status') and rng.random() < (0.8 if theme == 'status' else 0.07):
+                # the status of this class: the codes of a class with a status (mostly its base), extended
+                parents = [b for b in bases if kinds.get(b, {}).get('status')]
+                if rng.random() < 0.08:
+                    parents = [c for c in modules + ROOTS[1:] if kinds.get(c, {}).get('status')]
+                decls.append(['status', {'k': 'param', 'dt': gen_status(rng, parents, used), 'props': {}, 'inherit': True}])
+            if not is_mixin and not is_feature and rng.random() < (0.6 if theme == 'struct' else 0.05):
+                sname = rng.choice(SNAMES)
+                d = gen_struct(rng)
+                if est.get(sname) is None and not any(est.get(d['prefix'] + m) for m, _ in d['members']):
+                    decls.append([sname, d])
+                    est[sname] = 'struct'
+                    est.update({d['prefix'] + m: dt['t'] for m, dt in d['members']})
             for _ in range(rng.choice([0, 1, 1, 2, 2, 3])):
                 if names_known and rng.random() < (0.7 if not is_mixin else 0.2):
                     aname = rng.choice(names_known)
@@ -1071,7 +1512,7 @@ def gen_program(rng, big):
                 if aname in CNAMES and prev is None and not is_mixin:
                     d = gen_cmd_arg(rng, {'k': 'cmd', 'desc': rng.choice(DESCS), 'props': {}, 'inherit': True})
                 else:
-                    d = gen_decl(rng, prev, is_mixin)
+                    d = with_dtkw(rng, gen_decl(rng, prev, is_mixin))
                     if d['k'] == 'cmd' and aname not in CNAMES and not is_cmd(prev):
                         # parameter names and command names are kept apart (a Parameter merged with a Command of
                         # the same name from another base is outside the model)
@@ -1107,7 +1548,10 @@ def gen_program(rng, big):
                 mkinds[name] = mest
                 mvalued[name] = mval
                 (mixins if is_mixin else features if is_feature else modules).append(name)
-        elif r < 0.72 or not insts:
+                for a, d in decls:
+                    if a == 'status' and d.get('dt') and d['dt']['t'] == 'status' and not is_mixin:
+                        status_classes[name] = (bases, d['dt'])
+        elif r < p_inst or not insts:
             name = 'i%d' % (len(ex.steps) + 1)
             if sections and rng.random() < 0.18:
                 # a second module from a section of the loaded configuration (what a restart does: Server._processCfg runs
@@ -1119,6 +1563,8 @@ def gen_program(rng, big):
                     insts[name] = sections[sec][0]
                 continue
             cls = rng.choice(modules)
+            if theme == 'struct' and rng.random() < 0.8:
+                cls = rng.choice([c for c in modules if 'struct' in kinds[c].values()] or modules)
             if insts and rng.random() < 0.4:     # a sibling of an existing instance (same class, other configuration)
                 cls = insts[rng.choice(sorted(insts))]
             est = {k: v for k, v in kinds[cls].items() if v is not None and not is_cmd(v)}
@@ -1227,7 +1673,9 @@ def gen_program(rng, big):
                 op = {'op': 'mutate', 'inst': iname, 'par': par, 'kind': 'setprop', 'key': key, 'val': props[key]}
             ops.append(op)
             ex.apply(op)
-    return {'ops': ops}, ex.init, ex.steps
+    program = {'ops': ops}
+    add_echoes(rng, program, ex)
+    return program, ex.init, ex.steps
 
 
 # ----------------------------------------------------------------------------------------
@@ -1254,8 +1702,23 @@ def _argument_of(decl):
 
 def wire_decl(decl):
     k = decl['k']
+    if k == 'struct':
+        # what is written in the class body: the member parameters (description, datatype object) and the arguments of
+        # StructParam(); what that amounts to (names, influences, readonly of the members) is the model's business
+        from frappy.datatypes import StructOf
+        members = {m: mk_dt(dt) for m, dt in decl['members']}
+        return {'k': 'struct', 'desc': None if decl.get('desc') is None else jtext(decl['desc']), 'prefix': decl.get('prefix', ''),
+                'readonly': jtext(bool(decl.get('readonly'))), 'dt': obj_tree(StructOf(**members)),
+                'members': [[m, jtext('member ' + m), obj_tree(dt)] for m, dt in members.items()]}
+    if k == 'param' and decl.get('dt') and decl['dt']['t'] == 'status':
+        # the model works the codes out itself (parent: the class whose status is extended)
+        return {'k': 'param', 'desc': None if decl.get('desc') is None else jtext(decl['desc']), 'dt': None,
+                'status': {'parent': decl['dt'].get('parent'), 'std': list(decl['dt']['std']),
+                           'custom': [[n, int(c)] for n, c in decl['dt']['custom'].items()]},
+                'props': wire_props(decl.get('props') or {}), 'inherit': bool(decl.get('inherit', True))}
     if k == 'param':
         return {'k': 'param', 'desc': None if decl.get('desc') is None else jtext(decl['desc']), 'dt': wire_tree(decl.get('dt')),
+                'dtkw': wire_props(decl.get('dtkw') or {}),
                 'props': wire_props(decl.get('props') or {}), 'inherit': bool(decl.get('inherit', True))}
     if k == 'cmd':
         # the argument as it is after decoration: `Command.__call__` sets the optional members of a struct from the signature
@@ -1361,7 +1824,7 @@ def comparable(dumps):
     """the part of the implementation's dumps the model has to predict"""
     out = {}
     for owner, d in dumps.items():
-        if owner.startswith('cfg:'):
+        if owner.startswith('cfg:') or owner.startswith('lib:'):
             continue
         if 'acc' not in d:
             out[owner] = d
@@ -1411,7 +1874,7 @@ def val_pairs(dumps, acc, wacc=None):
         for a, x in d.get('acc', []):
             if x.get('catalogue') is not None:
                 acc.add((jtext(x['datainfo']), jtext(x['catalogue'])))
-            if wacc is not None and x.get('writes') is not None:
+            if wacc is not None and x.get('writes') is not None and not x.get('struct_write'):
                 wacc[(jtext(x['validates']), jtext(x['writes']))] = owner + ':' + a
 
 
@@ -1464,10 +1927,10 @@ def at_creation(steps):
     out = {}
     for st in steps:
         if st['outcome'] == 'ok' and st['op']['op'] in ('class', 'inst', 'load') and st['target'] in st['after']:
-            out[st['target']] = jtext(st['after'][st['target']])
+            out[st['target']] = (st.get('text') or {}).get(st['target']) or jtext(st['after'][st['target']])
         sec = 'cfg:' + str(st['op'].get('name'))
         if st['op']['op'] == 'inst' and 'from' not in st['op'] and sec in st['after']:
-            out[sec] = jtext(st['after'][sec])       # the section loaded with this operation, after the module was created from it
+            out[sec] = (st.get('text') or {}).get(sec) or jtext(st['after'][sec])       # the section loaded with this operation, after the module was created from it
     return out
 
 
@@ -1501,10 +1964,15 @@ def requests_for(program, init, steps, second=None):
         {'p': 'C09', 'k': 'run', 'prelude': prelude_ops(),
          'secop_base': secop_base_classes(),
          'ops': [wire_step(st) for st in steps]},
-        {'p': 'C09', 'k': 'judge_run', 'init': text_dumps(init['dumps']),
-         'steps': [{'target': step_target(st), 'after': text_dumps(st['after'])} for st in steps]},
+        {'p': 'C09', 'k': 'judge_run', 'init': init.get('text') or text_dumps(init['dumps']),
+         'steps': [{'target': step_target(st), 'after': st.get('text') or text_dumps(st['after'])} for st in steps]},
         {'p': 'C09', 'k': 'judge_val', 'pairs': sorted(pairs)},
         {'p': 'C09', 'k': 'judge_write', 'pairs': sorted(wpairs)},
+        # (step, module, member, action) -> what the module shows afterwards, in every context it was done in
+        {'p': 'C09', 'k': 'judge_ctx', 'pairs': sorted({(f'{i}:{key}', jtext(res)) for i, st in enumerate(steps)
+                                                        for key, _, res, _ in st.get('ctx') or []})},
+        # the model of the struct parameter callbacks (Klass/StructRW.lean) has to predict what the module shows
+        {'p': 'C09', 'k': 'ctx_model', 'probes': [start for st in steps for _, _, _, start in st.get('ctx') or []]},
     ]
     first = at_creation(steps)
     laters = []
@@ -1516,8 +1984,8 @@ def requests_for(program, init, steps, second=None):
     if second is not None:
         reqs.append({'p': 'C09', 'k': 'judge_order', 'a': first, 'b': at_creation(second)})
         # the second run (classes in another order, the configuration loaded as a whole, then the modules) is a run, too
-        reqs.append({'p': 'C09', 'k': 'judge_run', 'init': text_dumps(init['dumps']),
-                     'steps': [{'target': step_target(st), 'after': text_dumps(st['after'])} for st in second]})
+        reqs.append({'p': 'C09', 'k': 'judge_run', 'init': init.get('text') or text_dumps(init['dumps']),
+                     'steps': [{'target': step_target(st), 'after': st.get('text') or text_dumps(st['after'])} for st in second]})
     return reqs, laters
 
 
@@ -1537,8 +2005,8 @@ def first_diff(model, impl):
 def evaluate(ctx, program, init, steps, second, answers, laters):
     """-> (disagreement or None, [violations])"""
     it = iter(answers)
-    model, jrun, jval, jwrite = next(it), next(it), next(it), next(it)
-    for a in (model, jrun, jval, jwrite):
+    model, jrun, jval, jwrite, jctx, mctx = next(it), next(it), next(it), next(it), next(it), next(it)
+    for a in (model, jrun, jval, jwrite, jctx, mctx):
         if 'driver_error' in a:
             raise RuntimeError(f'driver error: {a}')
     viols = []
@@ -1578,6 +2046,16 @@ def evaluate(ctx, program, init, steps, second, answers, laters):
                 dis = {'case': program, 'model': [g for g in m['part'] if g not in objpart],
                        'impl': [g for g in objpart if g not in m['part']], 'at': where, 'owner': 'sharing partition'}
                 break
+    if ctx.model_ok and dis is None:
+        probes = [(i, e) for i, st in enumerate(steps) for e in st.get('ctx') or []]
+        for (i, (key, cname, res, start)), pred in zip(probes, mctx['shown']):
+            members = [m for m, _ in start['members']]
+            impl = res if res[0] != 'ok' else \
+                [[[m, jtext(canon(v))] for m, v in zip(members, res[1])], sorted([m, jtext(canon(v))] for m, v in res[1][-1].items())]
+            # (a member whose datatype - overridden in a subclass - refuses the value is outside the model: it keeps what it had)
+            if res[0] == 'ok' and [start['m'], start['v']] in impl[0] and impl != [pred[0], sorted(pred[1])]:
+                dis = {'case': program, 'model': pred, 'impl': impl, 'at': i, 'owner': f'{key} {cname} (member update of a struct parameter)'}
+                break
     if jrun['bad'] is not None:
         i, owners = jrun['bad']
         op = steps[i]['op']
@@ -1593,9 +2071,16 @@ def evaluate(ctx, program, init, steps, second, answers, laters):
     # it is counted in the evidence (run), never judged here - what an operation changes is decided by the monitors alone
     if not jwrite['ok']:
         bad = sorted({o + ':' + a for st in steps for o, d in st['after'].items() for a, x in d.get('acc', [])
-                      if x.get('writes') is not None and x['writes'] != x['validates']})
+                      if x.get('writes') is not None and x['writes'] != x['validates'] and not x.get('struct_write')})
         viols.append({'sig': 'C09:write-ignores-own-datatype', 'what': f'write_<p>(v) through the wrapper does not follow the '
                       f'datatype of the instance written to: {bad[:4]}', 'case': program, 'detail': {'params': bad}})
+    if jctx['bad']:
+        i, key = jctx['bad'][0].split(':', 1)
+        seen = [[c, r] for k, c, r, _ in steps[int(i)].get('ctx') or [] if k == key]
+        viols.append({'sig': 'C09:behaviour-depends-on-access-to-another-module',
+                      'what': f'after operation {i}: what {key.rsplit(":", 1)[0]} shows after the same member update ({key.rsplit(":", 1)[1]}) '
+                              f'depends on which other module is being accessed meanwhile: {json.dumps(seen)[:400]}',
+                      'case': program, 'detail': {'keys': jctx['bad']}})
     if not jval['ok']:
         viols.append({'sig': 'C09:validation-not-a-function-of-datainfo', 'what': 'two datatype objects with equal datainfo '
                       'give different outcomes on the boundary catalogue', 'case': program})
@@ -1624,15 +2109,11 @@ def evaluate(ctx, program, init, steps, second, answers, laters):
 
 
 def run_case(ctx, program, rng, with_order=True):
-    """re-runs a recorded program (corpus, replay, shrinking)"""
-    try:
-        with time_limit(CASE_LIMIT):
-            init, steps = impl_run(program)
-            second = None
-            if with_order:
-                second = impl_run(program.get('second') or reorder(rng, program))[1]
-    except CaseTimeout as e:
-        raise RuntimeError(str(e)) from None
+    """re-runs a recorded program (corpus, replay, shrinking): each run in a process of its own"""
+    init, steps = fresh(job_run, program)
+    second = None
+    if with_order:
+        second = fresh(job_run, program.get('second') or reorder(rng, program))[1]
     reqs, laters = requests_for(program, init, steps, second)
     answers = ctx.driver.batch(reqs)
     return evaluate(ctx, program, init, steps, second, answers, laters)
@@ -1673,11 +2154,7 @@ def run(ctx):
         nonlocal shrunk
         if not batch_reqs:
             return
-        answers = ctx.driver.batch([r for reqs in batch_reqs for r in reqs])
-        pos = 0
-        for reqs, (program, init, steps, second, laters) in zip(batch_reqs, batch_meta):
-            ans = answers[pos:pos + len(reqs)]
-            pos += len(reqs)
+        for ans, (program, init, steps, second, laters) in zip(pbatch(ctx, batch_reqs), batch_meta):
             dis, viols = evaluate(ctx, program, init, steps, second, ans, laters)
             res.evaluations += 1
             res.traces += 1 + (second is not None)
@@ -1697,18 +2174,36 @@ def run(ctx):
         batch_reqs.clear()
         batch_meta.clear()
 
-    for k in range(len(cases) + n):
-        try:
-            with time_limit(CASE_LIMIT):
-                if k < len(cases):
-                    program = cases[k][1]
-                    init, steps = impl_run(program)
-                else:
-                    ex_rng = random.Random(rng.random())
-                    program, init, steps = gen_program(ex_rng, big)
-                second = impl_run(program.get('second') or reorder(random.Random(rng.random()), program))[1]
-        except CaseTimeout as e:
-            raise RuntimeError(f'{e} (case {k}); harness problem, not a verdict') from None
+    seeds = [(rng.random(), rng.random()) for _ in range(len(cases) + n)]
+    total = len(cases) + n
+    done = {}
+    ahead = {}
+
+    def start_firsts(k):
+        ks = list(range(k, min(k + JOBS, total)))
+        if ks:
+            ahead[k] = (ks, fresh_start([(job_run, (cases[i][1],)) if i < len(cases) else (job_generate, (seeds[i][0], big)) for i in ks]))
+
+    def results(k):
+        """the two runs of case k; the cases are run JOBS at a time, every run in a process of its own; the first runs of the next
+        JOBS cases are started right away (they run while the Lean driver judges the cases at hand)"""
+        if k not in done:
+            done.clear()
+            if k not in ahead:
+                start_firsts(k)
+            ks, handle = ahead.pop(k)
+            firsts = fresh_collect(handle)
+            firsts = [(cases[i][1],) + tuple(f) if i < len(cases) else f for i, f in zip(ks, firsts)]
+            handle = fresh_start([(job_run, (f[0].get('second') or reorder(random.Random(seeds[i][1]), f[0]),))
+                                  for i, f in zip(ks, firsts)])
+            start_firsts(ks[-1] + 1)
+            seconds = fresh_collect(handle)
+            for i, f, sec in zip(ks, firsts, seconds):
+                done[i] = f + (sec[1],)
+        return done[k]
+
+    for k in range(total):
+        program, init, steps, second = results(k)
         reqs, laters = requests_for(program, init, steps, second)
         batch_reqs.append(reqs)
         batch_meta.append((program, init, steps, second, laters))
@@ -1721,6 +2216,8 @@ def run(ctx):
         nmut = sum(1 for st in steps if st['op']['op'] == 'mutate' and st['outcome'] == 'ok')
         for st in steps:
             res.count('op.%s.%s' % (st['op']['op'], st['outcome']))
+            for _, cname, _, _ in st.get('ctx') or []:
+                res.count('context-probe.' + ('alone' if cname == 'alone' else 'inside-' + cname.rsplit('.', 1)[1].split('_')[0] + '-of-another-module'))
             if st['op']['op'] == 'class':
                 if 'Feature' in (st.get('mro') or [])[1:2] or any(b in BUILTIN_MIXINS for b in st['op']['bases']):
                     res.count('class.' + ('feature' if 'Feature' in (st.get('mro') or [])[1:2] else 'uses-control-mixin'))
@@ -1729,6 +2226,8 @@ def run(ctx):
                         res.count('decl.module-property.' + d['k'])
                     else:
                         res.count('decl.' + d['k'] + ('' if d.get('inherit', True) else '.noinherit'))
+                    if d['k'] == 'param' and d.get('dtkw'):
+                        res.count('decl.datatype-properties-as-keywords')
                     if d['k'] == 'param' and d.get('dt'):
                         res.count('decl.datatype.' + str(d['dt']['t'] if isinstance(d['dt'], dict) else d['dt']))
             elif st['op']['op'] == 'mutate':
@@ -1762,7 +2261,7 @@ def run(ctx):
             res.nontriv(program)
         if len(res.samples) < 3 and multi and ninst and nmut and len(ops) <= 7:
             res.samples.append({'program': program, 'outcomes': [st['outcome'] for st in steps]})
-        if len(batch_reqs) >= 50:
+        if len(batch_reqs) >= JOBS:
             flush()
     flush()
     return res
@@ -1772,9 +2271,8 @@ def replay(ctx, payload):
     import random
     program = payload['case']
     try:
-        with time_limit(CASE_LIMIT):
-            init, steps = impl_run(program)
-    except CaseTimeout as e:
+        init, steps = fresh(job_run, program)
+    except RuntimeError as e:
         print('harness problem:', e)
         return 2
     for i, st in enumerate(steps):
@@ -1790,7 +2288,7 @@ def replay(ctx, payload):
         if 'step' in d:
             run_ = steps
             if d.get('in') == 'second':
-                run_ = impl_run(v['case']['second'])[1]
+                run_ = fresh(job_run, v['case']['second'])[1]
                 for i, st in enumerate(run_):
                     print('  other order', i, json.dumps(st['op'])[:300], '->', st['outcome'])
             prev = init['dumps'] if d['step'] == 0 else run_[d['step'] - 1]['after']
